@@ -108,7 +108,8 @@ impl<T: Clone + Copy + Zero + Mul<Output = T> + Add<Output = T>> Polynomial<T> {
     #[inline]
     pub fn derivative(&self) -> Polynomial<T> {
         let mut p = Polynomial::<T>::empty();
-        let degree = self.degree().unwrap(); //TODO unwrap
+        // The empty polynomial is the zero polynomial: its derivative is empty too
+        let degree = match self.degree() { Ok( d ) => d, Err( _ ) => { return p; } };
         p.coeffs = vec![ T::zero(); degree ];
         for i in 0..degree {
             //p.coeffs[ i ] = self.coeffs[ i + 1 ].clone() * ( i + 1 ) as f64;
@@ -133,6 +134,8 @@ impl<T: Clone + Copy + Zero + Mul<Output = T> + Add<Output = T>> Polynomial<T> {
     #[inline]
     pub fn derivative_at(&self, x: T, n: usize) -> T {
         let p = self.derivative_n( n );
+        // Differentiating past the degree leaves the empty (zero) polynomial
+        if p.coeffs.is_empty() { return T::zero(); }
         p.eval( x )
     }
 }
